@@ -584,13 +584,14 @@ class MessageAccumulator:
             aiokafka.errors.KafkaTimeoutError: the batch could not be added
                 within the specified timeout.
         """
-        if self._closed:
-            raise ProducerClosed()
-        if self._exception is not None:
-            raise copy.copy(self._exception)
-
         start = time.monotonic()
         while timeout > 0:
+            # Re-check on every iteration, as in ``add_message()``: the
+            # accumulator can be closed while we wait for a drain.
+            if self._closed:
+                raise ProducerClosed()
+            if self._exception is not None:
+                raise copy.copy(self._exception)
             pending = self._batches.get(tp)
             if pending:
                 await pending[-1].wait_drain(timeout=timeout)
